@@ -173,7 +173,7 @@ impl Prop for C15 {
                 c0["m"] = mutate::none();
                 v.push(c0);
                 let big = s.trace.bytes.len() > 4000;
-                if (*c > 1 && big) || *c > 3 {
+                if (*c > 1 && big) || *c > (if s.trace.bytes.len() < 200 { 20 } else { 3 }) {
                     continue;
                 }
                 // on later streams only a share of the big types' atoms (they dominate the cost)
@@ -421,6 +421,22 @@ fn run_chanid(o: &mut Outcome, case: &Value) {
     // malformed texts must be refused, not panic and not be accepted as some other id
     let mut bad = vec![text[..text.len() - 2].to_string(), format!("{}AAAA", text.trim_end_matches('=')), "".to_string(), "!!!not base64!!!".to_string()];
     bad.push(text.replace(|c: char| c.is_ascii_alphabetic(), "*"));
+    // well-formed base64 of other lengths (longer ids, much longer strings)
+    for extra in [1usize, 3, 4, 16, 32, 100, 1000] {
+        let mut b = raw.clone();
+        b.extend_from_slice(&sch.bytes(extra));
+        // reuse the crate's own text form for 32-byte prefixes; build the longer text by hand
+        const T: &[u8; 64] = b"ABCDEFGHIJKLMNOPQRSTUVWXYZabcdefghijklmnopqrstuvwxyz0123456789+/";
+        let mut t = String::new();
+        for ch in b.chunks(3) {
+            let n = (ch[0] as u32) << 16 | (*ch.get(1).unwrap_or(&0) as u32) << 8 | *ch.get(2).unwrap_or(&0) as u32;
+            t.push(T[(n >> 18) as usize & 63] as char);
+            t.push(T[(n >> 12) as usize & 63] as char);
+            t.push(if ch.len() > 1 { T[(n >> 6) as usize & 63] as char } else { '=' });
+            t.push(if ch.len() > 2 { T[n as usize & 63] as char } else { '=' });
+        }
+        bad.push(t);
+    }
     for b in bad {
         o.bump("fault.text.malformed");
         let r = std::panic::catch_unwind(|| zkabacus_crypto::ChannelId::from_str(&b));
